@@ -76,9 +76,11 @@ def canon(x):
         return ("dict", [(repr(k), canon(v)) for k, v in sorted(x.items(), key=lambda kv: repr(kv[0]))])
     if isinstance(x, (list, tuple)):
         return [canon(v) for v in x]
+    if isinstance(x, Closure):
+        return ("closure", [canon(x.call(p)) for p in x.probes])
     if isinstance(x, (Q["st"].State, Q["pv"].Povm, Q["gt"].Gate, Q["mp"].MProcess)):
         fr = freeze(x, None)
-        return ("obj", fr["k"], [canon(a) for a in fr["arrs"]], list(fr["cfg"]), fr.get("shape"))
+        return ("obj", fr["k"], [canon(a) for a in fr["arrs"]], list(fr["cfg"]), fr.get("shape"), public_config(x))
     if isinstance(x, Q["md"].MultinomialDistribution):
         return ("md", np.array(x.ps), list(x.shape))
     if isinstance(x, Q["se"].StateEnsemble):
@@ -88,6 +90,46 @@ def canon(x):
     if hasattr(x, "estimated_var_sequence"):
         return ("est", [np.array(v) for v in x.estimated_var_sequence])
     return ("repr", type(x).__name__)
+
+
+_PROPS = {}
+
+
+def public_config(x):
+    """EVERY public property of the object (scalars, strings, tuples, arrays by value; other objects by type name):
+    the observable configuration, not only the arrays"""
+    t = type(x)
+    if t not in _PROPS:
+        _PROPS[t] = [n for n in sorted(dir(t)) if not n.startswith("_") and isinstance(getattr(t, n, None), property)]
+    out = []
+    for n in _PROPS[t]:
+        try:
+            v = getattr(x, n)
+        except Exception as e:
+            v = e
+        if v is None or isinstance(v, (bool, int, float, complex, str, np.generic, np.ndarray, BaseException)):
+            out.append([n, canon(v)])
+        elif isinstance(v, (list, tuple)) and all(isinstance(u, (bool, int, float, str, np.generic, np.ndarray)) for u in v):
+            out.append([n, [canon(u) for u in v]])
+        else:
+            out.append([n, "<%s>" % type(v).__name__])
+    return out
+
+
+class Closure:
+    """a function returned by one of the func_calc_* factories, observed through its outputs on fixed probe vectors"""
+
+    def __init__(self, f, probes):
+        self.f, self.probes = f, probes
+
+    def call(self, p):
+        try:
+            with warnings.catch_warnings():
+                warnings.simplefilter("ignore")
+                r = self.f(np.array(p))
+            return r[0] if isinstance(r, tuple) else r
+        except Exception as e:
+            return e
 
 
 def same(a, b, tol=TOL):
@@ -650,6 +692,11 @@ def fr10(rng, lo=-9, hi=9):
     return rng.randint(lo, hi) / 10.0
 
 
+# a configuration that differs from the defaults in every settable respect (half of the pool objects carry it)
+VARIED = dict(on_para_eq_constraint=False, on_algo_eq_constraint=False, on_algo_ineq_constraint=False, mode_proj_order="ineq_eq",
+              eps_proj_physical=1e-6, eps_truncate_imaginary_part=1e-8)
+
+
 def make_pool(world, rng):
     """objects of all types on qubit systems 0 and 1 and the qutrit system 2, from small rationals; a mixture of
     physical and non-physical ones (is_physicality_required False so that arithmetic results are admissible)"""
@@ -677,19 +724,19 @@ def make_pool(world, rng):
             if k == 0 and np.linalg.norm(r) > 0.95:
                 r = r / (2 * np.linalg.norm(r))
             vec = s2 * np.concatenate([[1.0 if rng.random() < 0.8 else 1.2], r])
-            add("S%d%d" % (n, k), "State", Q["st"].State(c, vec, is_physicality_required=False, is_estimation_object=bool(k)), cid)
+            add("S%d%d" % (n, k), "State", Q["st"].State(c, vec, is_physicality_required=False, is_estimation_object=bool(k), **(VARIED if k else {})), cid)
         for k in range(2):
-            add("G%d%d" % (n, k), "Gate", Q["gt"].Gate(c, rgate(), is_physicality_required=False, is_estimation_object=bool(k)), cid)
+            add("G%d%d" % (n, k), "Gate", Q["gt"].Gate(c, rgate(), is_physicality_required=False, is_estimation_object=bool(k), **(VARIED if k else {})), cid)
         m = 2 + (n + rng.randint(0, 1)) % 2
         a = [0.5, 0.25, 0.25][:m] if m == 3 else [0.6, 0.4]
         ns = [np.array([fr10(rng), fr10(rng), fr10(rng)]) for _ in range(m - 1)]
         ns.append(-sum(ai * ni for ai, ni in zip(a, ns)) / a[-1])
         vecs = [np.sqrt(2) * ai * np.concatenate([[1.0], ni]) for ai, ni in zip(a, ns)]
-        add("P%d0" % n, "Povm", Q["pv"].Povm(c, vecs, is_physicality_required=False), cid)
+        add("P%d0" % n, "Povm", Q["pv"].Povm(c, vecs, is_physicality_required=False, **(VARIED if n else {})), cid)
         mo = 2 if n == 0 else 3
         ps = [0.7, 0.3] if mo == 2 else [0.5, 0.3, 0.2]
         hss = [p * rgate() for p in ps]
-        add("M%d0" % n, "MProcess", Q["mp"].MProcess(c, hss, is_physicality_required=False), cid)
+        add("M%d0" % n, "MProcess", Q["mp"].MProcess(c, hss, is_physicality_required=False, **({} if n else VARIED)), cid)
         for cls in ("State", "Gate", "Povm", "MProcess"):
             for on_para in (True, False):
                 mm = {"Povm": m, "MProcess": mo}.get(cls, 1)
@@ -712,6 +759,12 @@ def make_pool(world, rng):
     add("P20", "Povm", Q["pv"].Povm(c, [0.5 * e0 + dv, 0.5 * e0 - dv], is_physicality_required=False), cid)
     hs = np.eye(9) * 0.8; hs[0, 0] = 1.0; hs[1:, 0] = [fr10(rng, -2, 2) * 0.1 for _ in range(8)]
     add("G20", "Gate", Q["gt"].Gate(c, hs, is_physicality_required=False), cid)
+    # every base object has a copy made NOW ("twin"): it must stay compatible with its original (same configuration)
+    for key, ent in pool.items():
+        if ent["kind"] in ("State", "Gate", "Povm", "MProcess"):
+            ent["base"] = True
+            ent["twin"] = ent["obj"].copy()
+            ent["twin_fr"] = freeze(ent["obj"], ent["csid"])
     return pool
 
 
@@ -741,9 +794,21 @@ INDEXED = {"MProcess": ["to_choi_matrix", "to_choi_matrix_with_dict", "to_choi_m
 COMPOSE = [("Gate", "State"), ("Povm", "State"), ("Gate", "Gate"), ("Povm", "Gate"), ("MProcess", "State"), ("MProcess", "Gate"),
            ("Gate", "MProcess"), ("Povm", "MProcess"), ("MProcess", "MProcess"), ("Gate", "Ens"), ("Povm", "Ens"), ("MProcess", "Ens")]
 TENSOR = [("State", "State"), ("Gate", "Gate"), ("Povm", "Povm"), ("MProcess", "Gate"), ("Gate", "MProcess"), ("State", "Ens"), ("Ens", "State")]
-VARFN = ["calc_proj_eq_constraint_with_var", "calc_proj_ineq_constraint_with_var", "convert_var_to_stacked_vector",
-         "func_calc_proj_eq_constraint_with_var", "func_calc_proj_ineq_constraint_with_var", "func_calc_proj_physical_with_var",
-         "generate_from_var"]
+VARFN = ["calc_proj_eq_constraint_with_var", "calc_proj_ineq_constraint_with_var", "convert_var_to_stacked_vector", "generate_from_var"]
+# function factories on an object: every one, with every combination of its arguments (also None = "the object's own")
+FACTORIES = {"func_calc_proj_eq_constraint": 1, "func_calc_proj_eq_constraint_with_var": 1, "func_calc_proj_ineq_constraint": 1,
+             "func_calc_proj_ineq_constraint_with_var": 1, "func_calc_proj_physical": 3, "func_calc_proj_physical_with_var": 3}
+FACTORY_ARGS = [(op, order, it) for op in (None, True, False) for order in (None, "eq_ineq", "ineq_eq") for it in (None, 1, 30)]
+SETTERS = [("set_mode_proj_order", "eq_ineq"), ("set_mode_proj_order", "ineq_eq"), ("eps_truncate_imaginary_part", 1e-6), ("eps_truncate_imaginary_part", 1e-11)]
+
+
+def probe_vectors(obj, on_para):
+    """two fixed non-physical variable vectors of the length the closure expects"""
+    Q = q()
+    cls = type(obj).__name__
+    m = len(obj.vecs) if cls == "Povm" else len(obj.hss) if cls == "MProcess" else 1
+    n = var_len(cls, obj.dim, obj.on_para_eq_constraint if on_para is None else on_para, m)
+    return [[((3 * i + 1 + 5 * j) % 7 - 3) / 5.0 + (0.6 if i == 0 else 0.0) for i in range(n)] for j in range(2)]
 
 
 def perform(world, desc, operands):
@@ -757,6 +822,26 @@ def perform(world, desc, operands):
         return f() if callable(f) else f                       # read-only properties of distributions / ensembles
     if t == "indexed":
         return getattr(operands[0], desc["m"])(desc["i"])
+    if t == "factory":
+        o = operands[0]
+        kw = {}
+        if desc["on_para"] is not None:
+            kw["on_para_eq_constraint"] = desc["on_para"]
+        if FACTORIES[desc["m"]] == 3:
+            if desc["order"] is not None:
+                kw["mode_proj_order"] = desc["order"]
+            kw["max_iteration"] = 30 if desc["maxit"] is None else desc["maxit"]          # (the default 1000 only costs time)
+        return Closure(getattr(o, desc["m"])(**kw), probe_vectors(o, desc["on_para"]))
+    if t == "setter":
+        o = operands[0]
+        if desc["m"] == "set_mode_proj_order":
+            o.set_mode_proj_order(desc["v"])
+        else:
+            setattr(o, desc["m"], desc["v"])
+        return o                                                    # the whole object afterwards is the observation
+    if t == "twin":
+        a, b = operands
+        return [a + b, a - b, b - a]
     if t == "md":
         o = operands[0]
         if desc["m"] == "getitem":
@@ -813,7 +898,7 @@ def choose_op(rng, pool, hist_world):
     objs = [k for k in allobjs if pool[k]["kind"] not in ("MD", "Ens")]
     for _ in range(50):
         r = rng.random()
-        if r < 0.08:
+        if r < 0.07:
             # distributions and ensembles: indexed access, marginalisation, conditioning, seeded sampling
             k = rng.choice([x for x in allobjs if pool[x]["kind"] in ("MD", "Ens")])
             o = pool[k]["obj"]
@@ -835,6 +920,19 @@ def choose_op(rng, pool, hist_world):
                 idx = sorted(rng.sample(range(nv), rng.randint(1, max(1, nv - 1))))
                 return {"t": "md", "m": m, "idx": idx, "vals": [rng.randrange(shape[i]) for i in idx], "a": [k]}
             return {"t": "md", "m": m, "num": rng.choice([1, 10, 50]), "size": rng.randint(1, 3), "seed": rng.randrange(1000), "a": [k]}
+        if r < 0.18:
+            # function factories, configuration setters, arithmetic with the copy made earlier - on base objects
+            base = [x for x in objs if pool[x].get("base") and (pool[x]["obj"].dim == 2 or pool[x]["kind"] in ("State", "Povm"))]
+            k = rng.choice(base)
+            r2 = rng.random()
+            if r2 < 0.6:
+                m = rng.choice(sorted(FACTORIES))
+                op_, order, it = rng.choice(FACTORY_ARGS)
+                return {"t": "factory", "m": m, "on_para": op_, "order": order if FACTORIES[m] == 3 else None, "maxit": it if FACTORIES[m] == 3 else None, "a": [k]}
+            if r2 < 0.8:
+                m, v = rng.choice(SETTERS)
+                return {"t": "setter", "m": m, "v": v, "a": [k]}
+            return {"t": "twin", "a": [k]}
         if r < 0.34:
             k = rng.choice(objs); kind = pool[k]["kind"]
             if kind in INDEXED and rng.random() < 0.3:
@@ -900,6 +998,12 @@ def op_site(desc, pool):
     kinds = [pool[k]["kind"] if k in pool else "?" for k in desc["a"]]
     if t in ("unary", "indexed"):
         return "%s.%s" % (kinds[0], desc["m"])
+    if t == "factory":
+        return "%s.%s" % (kinds[0], desc["m"])
+    if t == "setter":
+        return "%s.%s" % (kinds[0], desc["m"] if desc["m"].startswith("set_") else desc["m"] + ".setter")
+    if t == "twin":
+        return "%s.__add__/__sub__(copy made earlier)" % kinds[0]
     if t == "md":
         return "%s.%s" % ({"MD": "MultinomialDistribution", "Ens": "StateEnsemble"}.get(kinds[0], kinds[0]), {"getitem": "__getitem__", "sampling": "execute_random_sampling"}.get(desc["m"], desc["m"]))
     if t == "arith":
@@ -923,6 +1027,7 @@ def run_history(ctx, case, report=True):
     pool = make_pool(world, random.Random(case["pool_seed"]))
     trackers = {}
     fails = []
+    watch = []
     gen = case.get("ops") is None
     ops = [] if gen else case["ops"]
     length = case["length"] if gen else len(ops)
@@ -946,6 +1051,14 @@ def run_history(ctx, case, report=True):
                 continue
             operands = [world.cs[cid]]
             frozen = None
+        elif desc["t"] == "twin":
+            # the object and the copy made of it earlier (at pool creation / after its last configuration setter); the fresh
+            # world gets two objects thawed from the snapshot taken when that copy was made
+            ent = pool[desc["a"][0]]
+            if "twin" not in ent:
+                continue
+            operands = [ent["obj"], ent["twin"]]
+            frozen = [ent["twin_fr"], ent["twin_fr"]]
         else:
             operands = [pool[a]["obj"] for a in desc["a"]]
             frozen = [freeze(pool[a]["obj"], pool[a]["csid"]) for a in desc["a"]]
@@ -984,9 +1097,28 @@ def run_history(ctx, case, report=True):
             fails.append((site, "history-dependent", k, "result of op %d (%s) differs from the same call on fresh copies in a fresh world: %s vs %s" % (k, site, _brief(rh), _brief(rf))))
         # ---- nothing that existed before may have changed
         for key, ent in pool.items():
+            if desc["t"] == "setter" and key == desc["a"][0]:
+                # a configuration setter is MEANT to change its operand (the state afterwards was compared with the fresh world
+                # above); the copy kept for later compatibility checks is renewed
+                if "twin" in ent:
+                    ent["twin"] = ent["obj"].copy(); ent["twin_fr"] = freeze(ent["obj"], ent["csid"])
+                continue
             if digest(ent["obj"]) != before[key]:
                 sig = "mutates-argument" if key in desc["a"] else "mutates-derived-object"
                 fails.append((site, sig, k, "op %d (%s) changed the value of pool object %s (%s)" % (k, site, key, "operand" if key in desc["a"] else "not an operand")))
+        # ---- results derived earlier (arrays, lists, closures returned by the func_calc_* factories observed through their outputs
+        #      on fixed probe vectors) must keep their value whatever is done later to the objects they were derived from
+        for wt in watch:
+            dg = digest(wt["obj"])
+            if dg != wt["dg"]:
+                fails.append((site, "mutates-derived-object", k, "op %d (%s) changed the %s returned earlier by op %d (%s)" % (
+                    k, site, "outputs of the function" if isinstance(wt["obj"], Closure) else "result", wt["k"], wt["site"])))
+                wt["dg"] = dg
+        if isinstance(res, (Closure, np.ndarray, list)) and desc["t"] != "twin":
+            watch.append({"k": k, "site": site, "obj": res, "dg": digest(res)})
+            cl = [w_ for w_ in watch if isinstance(w_["obj"], Closure)]
+            ot = [w_ for w_ in watch if not isinstance(w_["obj"], Closure)]
+            watch[:] = sorted(cl[-4:] + ot[-8:], key=lambda w_: w_["k"])
         for cid2, c in world.cs.items():
             if cid2 in bases and digest(c.basis()) != bases[cid2]:
                 fails.append((site, "mutates-basis", k, "op %d (%s) changed the basis of composite system %s" % (k, site, cid2)))
@@ -1009,7 +1141,9 @@ def run_history(ctx, case, report=True):
                     fails.append(("CompositeSystem." + s, "stale-or-corrupted-table", k, "after op %d (%s) the cached table differs from a fresh system's" % (k, site)))
         # ---- results join the pool
         labels.append(desc["t"] if not isinstance(res, Exception) else desc["t"] + "!raise")
-        if isinstance(res, (Q["st"].State, Q["gt"].Gate, Q["pv"].Povm, Q["mp"].MProcess)) and len(pool) < 60:
+        if desc["t"] == "setter":
+            pass
+        elif isinstance(res, (Q["st"].State, Q["gt"].Gate, Q["pv"].Povm, Q["mp"].MProcess)) and len(pool) < 60:
             cid = world.register(res.composite_system)
             pool["r%d" % k] = dict(kind=type(res).__name__, obj=res, csid=cid)
         elif isinstance(res, Q["md"].MultinomialDistribution) and len(pool) < 60:
@@ -1058,6 +1192,84 @@ def chk_history(ctx, case):
         small = shrink_history(ctx, case, ops[:k + 1], (site, sig)) if not case.get("noshrink") else ops[:k + 1]
         ctx.violation("history", site, sig, what + " | minimal history: %d operation(s)" % len(small),
                       {"seed": case["seed"], "pool_seed": case["pool_seed"], "ops": small, "noshrink": 1})
+
+
+def chk_factory(ctx, case):
+    """one func_calc_* factory of one pool object, called with EVERY combination of its arguments (None = the object's own
+    setting): building the function must leave the object as it was (all public attributes and arrays), the function is the one
+    a fresh copy in a fresh world gives, it keeps its outputs when the object is re-configured or overwritten afterwards, and a
+    copy of the object made before stays compatible with it"""
+    w = World()
+    pool = make_pool(w, random.Random(case["pool_seed"]))
+    ent = pool[case["key"]]
+    fr = freeze(ent["obj"], ent["csid"])
+    m = case["m"]
+    kind = ent["kind"]
+    site = "%s.%s" % (kind, m)
+    combos = FACTORY_ARGS if FACTORIES[m] == 3 else [(op_, None, None) for op_ in (None, True, False)]
+    for op_, order, it in combos:
+        desc = {"t": "factory", "m": m, "on_para": op_, "order": order, "maxit": it, "a": [case["key"]]}
+        sub = dict(case, combo=[op_, order, it])
+        if case.get("combo") is not None and list(case["combo"]) != [op_, order, it]:
+            continue
+        obj = thaw(fr, w)
+        twin = obj.copy()
+        d0 = digest(obj)
+        try:
+            cl = perform(w, desc, [obj])
+        except Exception as e:
+            ctx.count("factory", key=(case["key"], m, op_, order, it), nontrivial=False, label="%s!raise" % m)
+            r2 = None
+            try:
+                perform(World(), desc, [thaw(fr, World())])
+            except Exception as e2:
+                r2 = e2
+            if type(r2) is not type(e):
+                ctx.violation("factory", site, "history-dependent", "factory raised %r, on a fresh copy %r" % (e, r2), sub)
+            continue
+        own = (obj.on_para_eq_constraint, obj.mode_proj_order)
+        differs = (op_ is not None and op_ != own[0]) or ((order or "eq_ineq") != own[1] and FACTORIES[m] == 3)
+        ctx.count("factory", key=(case["key"], m, op_, order, it), nontrivial=True,
+                  label="%s %s" % (m, "arguments differ from the object's configuration" if differs else "arguments = the object's configuration"))
+        if digest(obj) != d0:
+            ctx.violation("factory", site, "mutates-argument",
+                          "%s(on_para_eq_constraint=%s, mode_proj_order=%s, max_iteration=%s) changed its object: public attributes %s" % (
+                              m, op_, order, it, [(a, b[1], c[1]) for a, b, c in [(x[0], x, y) for x, y in zip(public_config(thaw(fr, World())), public_config(obj))] if not same(b[1], c[1])][:4]), sub)
+        out1 = canon(cl)
+        fw = World()
+        out_f = canon(perform(fw, desc, [thaw(fr, fw)]))
+        if not same(out1, out_f):
+            ctx.violation("factory", site, "history-dependent", "outputs of the function on the probe vectors %s, of the function built from a fresh copy %s" % (_brief(out1), _brief(out_f)), sub)
+        # a copy made before the factory call is still compatible with the object
+        try:
+            _ = obj + twin; _ = twin - obj
+        except Exception as e:
+            ctx.violation("factory", site, "copy-incompatible", "after %s(%s, %s, %s) the object cannot be combined with a copy of itself made before: %r" % (m, op_, order, it, e), sub)
+        # later changes of the object must not reach the function built earlier
+        for what, act in (("set_mode_proj_order(other order)", lambda: obj.set_mode_proj_order("eq_ineq" if obj.mode_proj_order == "ineq_eq" else "ineq_eq")),
+                          ("eps_truncate_imaginary_part = 1e-6", lambda: setattr(obj, "eps_truncate_imaginary_part", 1e-6)),
+                          ("set_zero()", lambda: obj.set_zero())):
+            try:
+                act()
+            except Exception:
+                continue
+            out2 = canon(cl)
+            if not same(out1, out2):
+                ctx.violation("factory", site, "closure-aliases-object",
+                              "the function returned by %s(%s, %s, %s) changed its outputs after %s on the object it was built from: %s -> %s" % (m, op_, order, it, what, _brief(out1), _brief(out2)), sub)
+                break
+
+
+def sub_factory(ctx):
+    keys = ["S00", "S01", "G00", "G01", "P00", "P10", "M00", "M10"] + ([] if ctx.quick else ["S10", "S11", "G10", "G11", "S20", "S21", "P20"])
+    cases = []
+    for rep in range(ctx.n(1, 3)):
+        ps = ctx.rng.randrange(1 << 30)
+        for key in keys:
+            for m in sorted(FACTORIES):
+                cases.append({"pool_seed": ps, "key": key, "m": m})
+    ctx.sample("factory", cases[0])
+    ctx.run_cases("factory", chk_factory, cases)
 
 
 def sub_history(ctx):
@@ -1493,9 +1705,9 @@ def sub_witness(ctx):
     ctx.run_cases("witness", chk_witness, cases)
 
 
-SUBS = [("cache", sub_cache), ("heap", sub_heap), ("basis", sub_basis), ("loss", sub_loss), ("witness", sub_witness), ("history", sub_history)]
+SUBS = [("cache", sub_cache), ("heap", sub_heap), ("basis", sub_basis), ("loss", sub_loss), ("witness", sub_witness), ("factory", sub_factory), ("history", sub_history)]
 FNS = {"cache": chk_cache, "heap": chk_heap, "basis": chk_basis, "copy": chk_copy, "loss": chk_loss, "algo": chk_algo, "estimate": chk_estimate,
-       "witness": chk_witness, "history": chk_history}
+       "witness": chk_witness, "history": chk_history, "factory": chk_factory}
 
 
 def run(ctx):
